@@ -24,7 +24,7 @@ LEVEL = "exploration"
 RULE = ("scenario = one send_message call with optional cancellation token (fired at a generated instant, possibly before the call) "
         "and optional progress callback (may raise / await), + peer traffic incl. floods; non-trivial = the token fired while the request "
         "was pending, or a matching progress notification was delivered, or a flood ran during the request")
-PROBES = ["params_carried_a_stale_progress_token", "cancel_while_pending", "cancel_before_call", "response_wins_in_cancel_window", "deadline_in_cancel_window",
+PROBES = ["token_shared_by_second_request", "params_carried_a_stale_progress_token", "cancel_while_pending", "cancel_before_call", "response_wins_in_cancel_window", "deadline_in_cancel_window",
           "cancel_exactly_on_poll_edge", "flood_during_request", "callback_raised", "callback_slept", "progress_matching_delivered",
           "progress_foreign_delivered", "cancel_after_completion"]
 TIERS = {"quick": {"runs": 25000, "wall": 45.0}, "thorough": {"runs": 1500000, "wall": 560.0}}
@@ -88,13 +88,19 @@ def generate(rng: random.Random, tier: str) -> dict:
         flood = {"every": rng.choice([10, 10, 5, 50]), "start": rng.choice([0, t0, t0 + 100]), "end": dl + 50,
                  "kind": rng.choice(["notification", "other_response", "progress_foreign"])}
     cb = {"raise_at": sorted(rng.sample(range(0, 6), rng.choice([0, 0, 1, 2]))), "sleep": rng.choice([0, 0, 0, 0, 5, 300])} if use_progress else None
-    return {"v": 1, "timeout": timeout, "t0": t0, "uuid_seed": rng.getrandbits(40),
+    follow_up = None
+    if use_token and cancel is not None and rng.random() < 0.3:
+        # a second request started later with the SAME token (e.g. one token per user action covering several calls)
+        follow_up = {"dt": rng.choice([0, 1, 600, 1200]), "timeout": rng.choice([0.5, 1.0])}
+    return {"v": 1, "follow_up": follow_up, "timeout": timeout, "t0": t0, "uuid_seed": rng.getrandbits(40),
             "mid": rng.choice([None, None, "req-1", "77"]), "mode": rng.choice(["parse_message", "model_validate"]),
             "params": rng.choice([None, {}, {"a": 1}, {"_meta": {"keep": 1}, "b": 2}, {"_meta": {"progressToken": "stale-token-from-earlier-attempt"}, "c": 3}]),
             "use_token": use_token, "cancel": cancel, "use_progress": use_progress, "cb": cb, "flood": flood, "events": events}
 
 
 def simplify(scn):
+    if scn.get("follow_up"):
+        c = copy.deepcopy(scn); c["follow_up"] = None; yield c
     c = copy.deepcopy(scn)
     if c["flood"]:
         c["flood"] = None; yield c
@@ -250,6 +256,19 @@ def execute(scn: dict) -> dict:
             st["outcome"] = ("raise", e)
         st["t_done"] = sim.now()
         st["done_eseq"] = sim.rec("client", "done", st["outcome"][0])
+        fu_ = scn.get("follow_up")
+        if fu_ and token is not None:
+            await anyio.sleep(ticks(fu_["dt"]))
+            n_before = len(ws.items)
+            st["fu_cancelled_at_start"] = token.is_cancelled
+            st["fu_t0"] = sim.now()
+            try:
+                r2 = await sm.send_message(rr, ws, "tools/second", None, timeout=fu_["timeout"], message_id="second-request", cancellation_token=token)
+                st["fu_outcome"] = ("return", r2)
+            except BaseException as e2:  # noqa
+                st["fu_outcome"] = ("raise", e2)
+            st["fu_t1"] = sim.now()
+            st["fu_writes"] = [dump(it) for (_e, _t, _tn, it) in ws.items[n_before:]]
         await anyio.sleep(1.0)
 
     with patched((_uuid, "uuid4", fu)):
@@ -285,6 +304,27 @@ def execute(scn: dict) -> dict:
         actual = ("exception", type(val).__name__, str(val)[:100])
     t_call, t_done = st["t_call"], st["t_done"]
     writes = [(e, t, dump(item)) for (e, t, _tn, item) in ws.items]
+    if "fu_outcome" in st:
+        # the follow-up request with the same token is judged on its own and taken out of the first request's write history
+        fw = st["fu_writes"]
+        writes = writes[: len(writes) - len(fw)]
+        probe("token_shared_by_second_request")
+        k2, v2 = st["fu_outcome"]
+        if st["fu_cancelled_at_start"]:
+            # cancelled before sending: never sent, ends with the cancellation error
+            if any(w.get("method") == "tools/second" for w in fw):
+                V("sent-after-cancel", "second-request-with-cancelled-token", "a request started with an already cancelled token was written")
+            if not (k2 == "raise" and isinstance(v2, sm.CancelledError)):
+                V("outcome", "second-request-with-cancelled-token", f"a request started with an already cancelled token ended with {k2}:{type(v2).__name__}")
+        else:
+            tc2 = st.get("tc")
+            fired_during = tc2 is not None and st["fu_t0"] <= tc2 < st["fu_t0"] + scn["follow_up"]["timeout"]
+            if fired_during:
+                ok2 = (k2 == "raise" and isinstance(v2, sm.CancelledError) and st["fu_t1"] <= tc2 + POLL) or \
+                      (k2 == "raise" and isinstance(v2, TimeoutError) and st["fu_t0"] + scn["follow_up"]["timeout"] <= tc2 + POLL)
+                if not ok2:
+                    V("outcome", "second-request-ignores-shared-token", f"the token fired at {tc2} while the second request (started {st['fu_t0']}) was pending; it ended "
+                                                                      f"{k2}:{type(v2).__name__} at {st['fu_t1']}")
     reqs = [w for w in writes if w[2].get("method") == "tools/call"]
     cancels = [w for w in writes if w[2].get("method") == "notifications/cancelled"]
     others = [w for w in writes if w not in reqs and w not in cancels]
